@@ -8,5 +8,7 @@
 #include "include/env_proto.h"
 #undef nni_list_first
 #undef nni_list_empty
+size_t g_nt; sub0_topic *g_t0, *g_t1, *g_t2;
+#define VP_LIST_NODES X(g_t0) X(g_t1) X(g_t2)
 #include "modules/sub/lists_post.h"
 #include "modules/sub/env.h"
